@@ -91,9 +91,14 @@ class P(Prop):
         (M, "TV.C13.columns_roundtrip", "ids a bijection onto 0..k-1 => __printInOrder writes the datum with id j in column j (then the features) and the reader's fields[id_X] finds X"),
         (M, "TV.C13.validIds_iff", "the valid id assignments are exactly the 2+6+6+24 permutation layouts"),
         (M, "TV.C13.row_roundtrip", "a data line written by writeToFile (any valid layout, any feature columns, separator not a number character, lossless time format avoiding the separator) is read back by __readFromCsv as the same observation"),
+        (M, "TV.C13.csv_file_roundtrip", "whole file: writeToFile then readFromCsv(h=0) returns the same observations in the same order; readFromCsv(h=1) loses the first one (no header is ever written)"),
         (M, "TV.C13.time_roundtrip", "readTimestamp(str(t)) gives back the fields named by a format of distinct full-width codes, for every stamp that fits the widths"),
         (M, "TV.C13.time_roundtrip_full", "with the six calendar codes the calendar part is read back identically"),
         (M, "TV.C13.fits_of_wf", "every well-formed ObsTime before year 10000 fits the widths"),
+        (M, "TV.C13.wkt_roundtrip", "parseWkt(track.toWKT()) returns the same vertices in the same order for every non-empty lattice track"),
+        (M, "TV.C13.repr_value", "float(str(n/10^d)) has the value n/10^d (trailing zeros trimmed)"),
+        (M, "TV.C13.network_row_roundtrip", "an edge line written by writeToCsv is split by csv.reader into its five fields and rebuilt by readLineAndAddToNetwork as the same edge"),
+        (M, "TV.C13.net_file_roundtrip", "whole network file: h=1/header=1 returns all edges in order; h=0/header=0 returns them without the first"),
     ]
     partial = []
     open_statements = []
